@@ -17,16 +17,18 @@ open World
 inductive VOp where
   | push | tpush | insert (i : Nat) | tinsert (i : Nat)
   | pop | remove (i : Nat) | swapRemove (i : Nat) | clear
-  /-- `drain(a..b)` dropped without taking any item -/
-  | drain (a b : Nat)
+  /-- `drain(a..b)`: the items the calls `cs` (`next` / `next_back` in any pattern) yield are dropped one by one, then
+  the iterator is dropped -/
+  | drain (a b : Nat) (cs : List End)
   /-- removals through the typed view: the value goes to the caller -/
   | tpop | tremove (i : Nat) | tswapRemove (i : Nat)
   /-- capacity requests (`reserve` on every storage, the other three on resizable storages only) -/
   | reserve (n : Nat) | reserveExact (n : Nat) | shrinkToFit | shrinkTo (n : Nat)
   /-- `as_mut_slice().swap(i, j)` and `*at_mut(i) = fresh value` through the typed view -/
   | swap (i j : Nat) | assign (i : Nat)
-  /-- `splice(a..b, k fresh owned values)` dropped without taking any item -/
-  | splice (a b k : Nat)
+  /-- `splice(a..b, k fresh owned values)`: the replaced items the calls `cs` yield are dropped one by one, then the
+  iterator is dropped -/
+  | splice (a b k : Nat) (cs : List End)
   deriving Repr, DecidableEq
 
 /-- the script step of an abstract operation on vector `v` whose elements have type `ty` -/
@@ -39,7 +41,7 @@ def VOp.toOp (v ty : Nat) : VOp → Op
   | .remove i => .remove v i .drop
   | .swapRemove i => .swapRemove v i .drop
   | .clear => .clear v
-  | .drain a b => .drain v (.incl a) (.excl b) false [] .drop
+  | .drain a b cs => .drain v (.incl a) (.excl b) false (cs.map fun e => (e, Sink.drop)) .drop
   | .tpop => .tpop v
   | .tremove i => .tremove v i
   | .tswapRemove i => .tswapRemove v i
@@ -49,7 +51,8 @@ def VOp.toOp (v ty : Nat) : VOp → Op
   | .shrinkTo n => .shrinkTo v n
   | .swap i j => .tswap v i j
   | .assign i => .tassign v i
-  | .splice a b k => .splice v (.incl a) (.excl b) false (List.replicate k (.wrapper ty)) 0 [] .drop
+  | .splice a b k cs =>
+    .splice v (.incl a) (.excl b) false (List.replicate k (.wrapper ty)) 0 (cs.map fun e => (e, Sink.drop)) .drop
 
 /-- `Vec<Id>` plus the counter identities are drawn from, its capacity, and whether the storage has a fixed capacity
 (`Stack`, `StackN`, `Empty`: there `reserve_exact` / `shrink_to*` do not exist) -/
@@ -98,9 +101,9 @@ inductive Spec.Step : Spec → VOp → Spec → Prop where
         { s with items := (s.items.set i (s.items.getD (s.items.length - 1) 0)).take (s.items.length - 1) }
   | swapRemoveOut (s : Spec) (i : Nat) (h : s.items.length ≤ i) : Step s (.swapRemove i) s
   | clear (s : Spec) : Step s .clear { s with items := [] }
-  | drain (s : Spec) (a b : Nat) (h : a ≤ b ∧ b ≤ s.items.length) :
-      Step s (.drain a b) { s with items := s.items.take a ++ s.items.drop b }
-  | drainOut (s : Spec) (a b : Nat) (h : ¬ (a ≤ b ∧ b ≤ s.items.length)) : Step s (.drain a b) s
+  | drain (s : Spec) (a b : Nat) (cs : List End) (h : a ≤ b ∧ b ≤ s.items.length) :
+      Step s (.drain a b cs) { s with items := s.items.take a ++ s.items.drop b }
+  | drainOut (s : Spec) (a b : Nat) (cs : List End) (h : ¬ (a ≤ b ∧ b ≤ s.items.length)) : Step s (.drain a b cs) s
   | tpop (s : Spec) : Step s .tpop { s with items := s.items.take (s.items.length - 1) }
   | tremove (s : Spec) (i : Nat) (h : i < s.items.length) : Step s (.tremove i) { s with items := s.items.eraseIdx i }
   | tremoveOut (s : Spec) (i : Nat) (h : s.items.length ≤ i) : Step s (.tremove i) s
@@ -135,18 +138,19 @@ inductive Spec.Step : Spec → VOp → Spec → Prop where
   result fits, grows (not on a fixed storage) when it does not - or the storage refuses: then the new values are
   destroyed and, the iterator's drop having panicked, the vector keeps only the items before `a` (the crate's documented
   leak-on-panic behaviour). Out-of-range: only the values are consumed. -/
-  | spliceFits (s : Spec) (a b k : Nat) (h : a ≤ b ∧ b ≤ s.items.length) (hfit : a + k + (s.items.length - b) ≤ s.cap) :
-      Step s (.splice a b k)
+  | spliceFits (s : Spec) (a b k : Nat) (cs : List End) (h : a ≤ b ∧ b ≤ s.items.length)
+      (hfit : a + k + (s.items.length - b) ≤ s.cap) :
+      Step s (.splice a b k cs)
         { s with items := s.items.take a ++ List.range' s.next k ++ s.items.drop b, next := s.next + k }
-  | spliceGrow (s : Spec) (a b k c : Nat) (h : a ≤ b ∧ b ≤ s.items.length) (hover : s.cap < a + k + (s.items.length - b))
-      (hfix : s.fixed = false) (hc : a + k + (s.items.length - b) ≤ c) :
-      Step s (.splice a b k)
+  | spliceGrow (s : Spec) (a b k c : Nat) (cs : List End) (h : a ≤ b ∧ b ≤ s.items.length)
+      (hover : s.cap < a + k + (s.items.length - b)) (hfix : s.fixed = false) (hc : a + k + (s.items.length - b) ≤ c) :
+      Step s (.splice a b k cs)
         { s with items := s.items.take a ++ List.range' s.next k ++ s.items.drop b, next := s.next + k, cap := c }
-  | spliceRefused (s : Spec) (a b k : Nat) (h : a ≤ b ∧ b ≤ s.items.length)
+  | spliceRefused (s : Spec) (a b k : Nat) (cs : List End) (h : a ≤ b ∧ b ≤ s.items.length)
       (hover : s.cap < a + k + (s.items.length - b) ∨ USIZE_MAX < a + k + (s.items.length - b)) :
-      Step s (.splice a b k) { s with items := s.items.take a, next := s.next + k }
-  | spliceOut (s : Spec) (a b k : Nat) (h : ¬ (a ≤ b ∧ b ≤ s.items.length)) :
-      Step s (.splice a b k) { s with next := s.next + k }
+      Step s (.splice a b k cs) { s with items := s.items.take a, next := s.next + k }
+  | spliceOut (s : Spec) (a b k : Nat) (cs : List End) (h : ¬ (a ≤ b ∧ b ≤ s.items.length)) :
+      Step s (.splice a b k cs) { s with next := s.next + k }
 
 /-- the concrete world shows the abstract vector at `v`, and every other vector is what the background `bg` says -/
 structure Rel (bg : Nat → Option VecSt) (v ty : Nat) (w : World) (s : Spec) : Prop where
@@ -518,12 +522,16 @@ theorem step_clear (cfg : Cfg) (v ty : Nat) (w : World) (s : Spec) (h : Rel bg v
   refine Rel.mk' (bg := bg) hinv' (by frame_tac hbg) (by simpa using hf) { d with len := 0 } (by simp [World.upd, hlt]) hl hty (by simp [VecSt.abs])
     (by simp [hn]) hcp hbk
 
-theorem step_drain (cfg : Cfg) (v ty a b : Nat) (w : World) (s : Spec) (h : Rel bg v ty w s) :
-    ∃ s', Spec.Step s (.drain a b) s' ∧ Rel bg v ty (step cfg ((VOp.drain a b).toOp v ty) w).1 s' ∧
-      (step cfg ((VOp.drain a b).toOp v ty) w).2.notUb := by
+theorem step_drain (cfg : Cfg) (v ty a b : Nat) (cs : List End) (w : World) (s : Spec) (h : Rel bg v ty w s) :
+    ∃ s', Spec.Step s (.drain a b cs) s' ∧ Rel bg v ty (step cfg ((VOp.drain a b cs).toOp v ty) w).1 s' ∧
+      (step cfg ((VOp.drain a b cs).toOp v ty) w).2.notUb := by
   obtain ⟨hinv, hf, ⟨d, hv, hl, hty, habs, hcp, hbk⟩, hn, hbg⟩ := h
-  have hcore : Hist.Core ((VOp.drain a b).toOp v ty) := trivial
-  have hvalid : Hist.Valid w.vecs ((VOp.drain a b).toOp v ty) := ⟨⟨d, hv, hl⟩, by intro p hp; cases hp⟩
+  have hcore : Hist.Core ((VOp.drain a b cs).toOp v ty) := trivial
+  have hvalid : Hist.Valid w.vecs ((VOp.drain a b cs).toOp v ty) := by
+    refine ⟨⟨d, hv, hl⟩, ?_⟩
+    intro p hp
+    obtain ⟨e, _, rfl⟩ := List.mem_map.mp hp
+    trivial
   obtain ⟨hinv', hnub⟩ := Hist.step_inv cfg _ w hinv hcore hvalid
   have hg := hinv.good v d hv
   have hlen := abs_len hg.wf habs
@@ -536,34 +544,51 @@ theorem step_drain (cfg : Cfg) (v ty a b : Nat) (w : World) (s : Spec) (h : Rel 
     let d0 : VecSt := { d with len := a }
     let it : RangeIt := { v := v, typed := false, start := a, end0 := b, origLen := d.len, index := a, end_ := b }
     have hv0 : (w.upd v d0).vecs[v]? = some d0 := World.upd_get w v d0 hlt
-    have hinit : d0.InitRange a (b - a) := by
+    have hinitAll : ∀ j, a ≤ j → j < b → ∃ id, d0.cells.get j = .val id := by
+      intro j _ hj
+      simpa using hg.init j (by omega)
+    obtain ⟨ids, it', out', heat, e1, e2, e3, e4, e5, e6, e7, e8⟩ :=
+      eatLoop_drops cfg drainDrop v d0 hl a b (by show b ≤ d.cap; omega) hinitAll cs it [toString (b - a)] (w.upd v d0)
+        rfl rfl hv0 (by simpa using hf) (Nat.le_refl _) hab (Nat.le_refl _)
+    let W1 : World := logDrops d0.hasDrop ids (w.upd v d0)
+    have hv1 : W1.vecs[it'.v]? = some d0 := by rw [e1]; simpa [W1] using hv0
+    have hinit : d0.InitRange it'.index (it'.end_ - it'.index) := by
       intro j hj
-      have := hg.init (a + j) (by omega)
+      have hq6 : a ≤ it'.index := e6
+      have hq8 : it'.end_ ≤ b := e8
+      have := hg.init (it'.index + j) (by omega)
       simpa using this
-    have hex := drainDrop_exec (w.upd v d0) it d0 hv0 hl (by simpa using hf) (Nat.le_refl _) hab (Nat.le_refl _) hbl h1 h2 hinit
-    have hstep : step cfg ((VOp.drain a b).toOp v ty) w =
-        (((logDrops d0.hasDrop (d0.idsRange a (b - a)) (w.upd v d0)).upd v (d0.drainClose a b d.len)), .ok [toString (b - a)]) := by
-      simp only [VOp.toOp, step, drain, WM.bind_apply, getVec_ok w v d hv hl, hir, WM.lift_ok, setLen, setVec_apply, eatLoop,
-        WM.pure_apply]
-      rw [show drainDrop { v := v, typed := false, start := a, end0 := b, origLen := d.len, index := a, end_ := b }
-            (w.upd v { d with len := a }) = _ from hex]
-    refine ⟨_, Spec.Step.drain s a b ⟨hab, by omega⟩, ?_, hnub⟩
+    have hex := drainDrop_exec W1 it' d0 hv1 hl (by simpa [W1] using hf) (by rw [e3]; exact e6) e7
+      (by rw [e4]; exact e8) (by rw [e4, e5]; exact hbl) (by rw [e5]; exact h1) h2 hinit
+    have hstep : step cfg ((VOp.drain a b cs).toOp v ty) w =
+        ((logDrops d0.hasDrop (d0.idsRange it'.index (it'.end_ - it'.index)) W1).upd v (d0.drainClose a b d.len), .ok out') := by
+      simp only [VOp.toOp, step, drain, WM.bind_apply, getVec_ok w v d hv hl, hir, WM.lift_ok, setLen, setVec_apply]
+      rw [show eatLoop cfg drainDrop { v := v, typed := false, start := a, end0 := b, origLen := d.len, index := a, end_ := b }
+            (cs.map fun e => (e, Sink.drop)) [toString (b - a)] (w.upd v { d with len := a }) = _ from heat]
+      have hex' : drainDrop it' (logDrops d0.hasDrop ids (w.upd v d0)) = _ := hex
+      simp only [hex', e1, e3, e4, e5]
+      rfl
+    refine ⟨_, Spec.Step.drain s a b cs ⟨hab, by omega⟩, ?_, hnub⟩
     rw [hstep] at hinv' ⊢
-    refine Rel.mk' (bg := bg) hinv' (by frame_tac hbg) (by simpa using hf) (d0.drainClose a b d.len) (by simp [World.upd, hlt]) hl hty ?_ (by simp [hn])
+    refine Rel.mk' (bg := bg) hinv' ?_ (by simpa [W1] using hf) (d0.drainClose a b d.len)
+      (by simp [World.upd, W1, hlt]) hl hty ?_ (by simp [W1, hn])
       (by simp [VecSt.drainClose, d0, hcp]) (by simp [VecSt.drainClose, d0, hbk])
+    · intro u hu
+      have := hbg u hu
+      simp [World.upd, W1, List.getElem?_set, Ne.symm hu, this]
     rw [VecSt.drainClose_abs d0 a b d.len hab hbl h1]
     have : d.cells.take d.len = s.items.map Cell.val := habs
     show d.cells.take a ++ (d.cells.take d.len).drop b = _
     have hta : d.cells.take a = (d.cells.take d.len).take a := by rw [List.take_take]; congr 1; omega
     rw [hta, this, List.map_append, List.map_take, List.map_drop]
-  · have hex : step cfg ((VOp.drain a b).toOp v ty) w =
+  · have hex : step cfg ((VOp.drain a b cs).toOp v ty) w =
         ({ w with fault := none }, .panic (if a ≤ b then "assertion failed: end <= len" else "assertion failed: start <= end")) := by
       simp only [VOp.toOp, step, drain, WM.bind_apply, getVec_ok w v d hv hl, intoRange, rangeStart, rangeEnd]
       by_cases hab : a ≤ b
       · have : ¬ b ≤ d.len := fun hb => hr ⟨hab, hb⟩
         simp [hab, this, WM.lift]
       · simp [hab, WM.lift]
-    refine ⟨s, Spec.Step.drainOut s a b (by omega), ?_, hnub⟩
+    refine ⟨s, Spec.Step.drainOut s a b cs (by omega), ?_, hnub⟩
     rw [hex] at hinv' ⊢
     exact Rel.mk' (bg := bg) hinv' (by frame_tac hbg) rfl d hv hl hty habs hn hcp hbk
 
@@ -996,13 +1021,17 @@ theorem spliceDrop_refused (cfg : Cfg) (w : World) (it : RangeIt) (d : VecSt) (t
   · refine ⟨"capacity overflow", ?_⟩
     simp only [WM.onUnwind, WM.lift, Bind.bind, Res.bind, checkedAdd, h1, if_false, hdr]
 
-theorem step_splice (cfg : Cfg) (v ty a b k : Nat) (w : World) (s : Spec) (h : Rel bg v ty w s) :
-    ∃ s', Spec.Step s (.splice a b k) s' ∧ Rel bg v ty (step cfg ((VOp.splice a b k).toOp v ty) w).1 s' ∧
-      (step cfg ((VOp.splice a b k).toOp v ty) w).2.notUb := by
+theorem step_splice (cfg : Cfg) (v ty a b k : Nat) (cs : List End) (w : World) (s : Spec) (h : Rel bg v ty w s) :
+    ∃ s', Spec.Step s (.splice a b k cs) s' ∧ Rel bg v ty (step cfg ((VOp.splice a b k cs).toOp v ty) w).1 s' ∧
+      (step cfg ((VOp.splice a b k cs).toOp v ty) w).2.notUb := by
   obtain ⟨hinv, hf, ⟨d, hv, hl, hty, habs, hcp, hbk⟩, hn, hbg⟩ := h
-  have hcore : Hist.Core ((VOp.splice a b k).toOp v ty) := by
+  have hcore : Hist.Core ((VOp.splice a b k cs).toOp v ty) := by
     intro r hr; rw [List.eq_of_mem_replicate hr]; trivial
-  have hvalid : Hist.Valid w.vecs ((VOp.splice a b k).toOp v ty) := ⟨⟨d, hv, hl⟩, by intro p hp; cases hp⟩
+  have hvalid : Hist.Valid w.vecs ((VOp.splice a b k cs).toOp v ty) := by
+    refine ⟨⟨d, hv, hl⟩, ?_⟩
+    intro p hp
+    obtain ⟨e, _, rfl⟩ := List.mem_map.mp hp
+    trivial
   obtain ⟨hinv', hnub⟩ := Hist.step_inv cfg _ w hinv hcore hvalid
   have hg := hinv.good v d hv
   have hlen := abs_len hg.wf habs
@@ -1026,12 +1055,42 @@ theorem step_splice (cfg : Cfg) (v ty a b k : Nat) (w : World) (s : Spec) (h : R
       intro u hu
       show (w.vecs.set v d0)[u]? = _
       rw [List.getElem?_set_ne (Ne.symm hu)]; exact hbg u hu
-    have hstep0 : step cfg ((VOp.splice a b k).toOp v ty) w =
-        (do spliceDrop cfg it (wrappers ty ids) k; pure [toString (b - a)] : WM Out) W0 := by
+    have hinitAll : ∀ j, a ≤ j → j < b → ∃ id, d0.cells.get j = .val id := by
+      intro j _ hj
+      simpa using hg.init j (by omega)
+    obtain ⟨ids2, it', out', heat, e1, e2, e3, e4, e5, e6, e7, e8⟩ :=
+      eatLoop_drops cfg (fun i => spliceDrop cfg i (wrappers ty (List.range' w.created k)) k) v d0 hl a b
+        (by show b ≤ d.cap; omega) hinitAll cs it [toString (b - a)] W0 rfl rfl hv0 hf0 (Nat.le_refl _) hab (Nat.le_refl _)
+    let it2 : RangeIt := { v := v, typed := false, start := a, end0 := b, origLen := d.len, index := it'.index, end_ := it'.end_ }
+    have hit2 : it' = it2 := by
+      cases it' with
+      | mk v' t' s' e' o' i' j' =>
+        have q1 : v' = v := e1
+        have q2 : t' = false := e2
+        have q3 : s' = a := e3
+        have q4 : e' = b := e4
+        have q5 : o' = d.len := e5
+        subst q1 q2 q3 q4 q5
+        rfl
+    have hai : a ≤ it'.index := e6
+    have hij : it'.index ≤ it'.end_ := e7
+    have hjb : it'.end_ ≤ b := e8
+    let W1 : World := logDrops d0.hasDrop ids2 W0
+    have hv1 : W1.vecs[v]? = some d0 := by simpa [W1] using hv0
+    have hf1 : W1.fault = none := by simpa [W1] using hf0
+    have hW1 : ∀ u, u ≠ v → W1.vecs[u]? = bg u := by
+      intro u hu; simpa [W1] using hW0 u hu
+    have hstep0 : step cfg ((VOp.splice a b k cs).toOp v ty) w =
+        (do spliceDrop cfg it2 (wrappers ty ids) k; pure out' : WM Out) W1 := by
       simp only [VOp.toOp, step, splice, WM.bind_apply, hmk, getVec_ok (w.bumpN k) v d hvm hl, WM.onUnwind, hir, WM.lift_ok,
-        setLen, setVec_apply, eatLoop, WM.pure_apply]
+        setLen, setVec_apply]
       have hcl' : ((((wrappers ty (List.range' w.created k)).length : Nat) : Int) + 0).toNat = k := hcl
       rw [hcl']
+      rw [show eatLoop cfg (fun i => spliceDrop cfg i (wrappers ty (List.range' w.created k)) k)
+            { v := v, typed := false, start := a, end0 := b, origLen := d.len, index := a, end_ := b }
+            (cs.map fun e => (e, Sink.drop)) [toString (b - a)] ((w.bumpN k).upd v { d with len := a }) = _ from heat]
+      simp only [hit2]
+      rfl
     have hwf0 : d0.WF := ⟨by show a ≤ d.cells.length; omega, h2⟩
     cases hres : d0.reserve (a + k + (d.len - b) - a) with
     | ok p =>
@@ -1042,71 +1101,73 @@ theorem step_splice (cfg : Cfg) (v ty a b k : Nat) (w : World) (s : Spec) (h : R
           (d.cap < a + (a + k + (d.len - b) - a) ∧ a + (a + k + (d.len - b) - a) ≤ d1.cap ∧ VecSt.resizable d.bk = true) :=
         hcases0
       have hsmall : a + k + (d.len - b) ≤ USIZE_MAX := by omega
-      have hinit : d0.InitRange a (b - a) := by
+      have hinit : d0.InitRange it'.index (it'.end_ - it'.index) := by
         intro j hj
-        have := hg.init (a + j) (by omega)
+        have := hg.init (it'.index + j) (by omega)
         simpa using this
-      have hres' : d0.reserve (it.start + (wrappers ty ids).length + (it.origLen - it.end0) - it.start) = .ok (d1, es) := by
-        simpa [it, hidl] using hres
-      have hsmall' : it.start + (wrappers ty ids).length + (it.origLen - it.end0) ≤ USIZE_MAX := by simpa [it, hidl] using hsmall
+      have hres' : d0.reserve (it2.start + (wrappers ty ids).length + (it2.origLen - it2.end0) - it2.start) = .ok (d1, es) := by
+        simpa [it2, hidl] using hres
+      have hsmall' : it.start + (wrappers ty ids).length + (it2.origLen - it2.end0) ≤ USIZE_MAX := by simpa [it2, hidl] using hsmall
       have hpl : PlainList (wrappers ty ids) ids d0.ty := by
         have : d0.ty = ty := hty
         rw [this]; exact wrappers_plain ty ids
       obtain ⟨d3, he, hlen3, hcells3, hlive3, hcap3, hty3, hbk3, _, _, _⟩ :=
-        spliceDrop_exec cfg W0 it d0 d1 es (wrappers ty ids) ids hpl hv0 hl hf0 rfl (Nat.le_refl _) hab (Nat.le_refl _)
+        spliceDrop_exec cfg W1 it2 d0 d1 es (wrappers ty ids) ids hpl hv1 hl hf1 rfl hai hij hjb
           hbl h1 h2 hsmall' hres' hinit
       obtain ⟨_, hvis, _, _, _, _⟩ :=
-        spliceDrop_replaces cfg W0 it d0 d1 es (wrappers ty ids) ids hpl hv0 hl hf0 rfl (Nat.le_refl _) hab
-          (Nat.le_refl _) hbl h1 h2 hsmall' hres' hinit
+        spliceDrop_replaces cfg W1 it2 d0 d1 es (wrappers ty ids) ids hpl hv1 hl hf1 rfl hai hij
+          hjb hbl h1 h2 hsmall' hres' hinit
       simp only [wrappers_length, hidl] at he hvis
-      have hfin : step cfg ((VOp.splice a b k).toOp v ty) w =
-          ({ logDrops d0.hasDrop (d0.idsRange a (b - a)) { W0 with vecs := W0.vecs.set v d1, ev := es.reverse ++ W0.ev } with
-              vecs := W0.vecs.set v { d3 with len := a + k + (d.len - b) } }, .ok [toString (b - a)]) := by
+      have hfin : step cfg ((VOp.splice a b k cs).toOp v ty) w =
+          ({ logDrops d0.hasDrop (d0.idsRange it'.index (it'.end_ - it'.index)) { W1 with vecs := W1.vecs.set v d1, ev := es.reverse ++ W1.ev } with
+              vecs := W1.vecs.set v { d3 with len := a + k + (d.len - b) } }, .ok out') := by
         rw [hstep0]
         simp only [WM.bind_apply, he, WM.pure_apply]
         rfl
-      have hlt0 : v < W0.vecs.length := by
+      have hlt0 : v < W1.vecs.length := by
+        show v < (logDrops d0.hasDrop ids2 ((w.bumpN k).upd v d0)).vecs.length
+        rw [World.logDrops_vecs]
         show v < ((w.bumpN k).vecs.set v d0).length
         rw [List.length_set]; exact hlt
       have habs3 : ({ d3 with len := a + k + (d.len - b) } : VecSt).abs =
           (s.items.take a ++ List.range' s.next k ++ s.items.drop b).map Cell.val := by
-        have hv3 : (spliceDrop cfg it (wrappers ty ids) k W0).1.vecs[v]? = some { d3 with len := a + k + (d.len - b) } := by
+        have hv3 : (spliceDrop cfg it2 (wrappers ty ids) k W1).1.vecs[v]? = some { d3 with len := a + k + (d.len - b) } := by
           rw [he]
-          show (W0.vecs.set v { d3 with len := a + k + (d.len - b) })[v]? = _
+          show (W1.vecs.set v { d3 with len := a + k + (d.len - b) })[v]? = _
           simp [hlt0]
         have := vis_eq _ v _ hv3
         rw [← this, hvis]
         have hd : d.cells.take d.len = s.items.map Cell.val := habs
-        simp only [it, d0, hd, ids, hn, List.map_append, List.map_take, List.map_drop]
+        simp only [it2, d0, hd, ids, hn, List.map_append, List.map_take, List.map_drop]
       rcases hcases with ⟨hfit, hc1⟩ | ⟨hover, hc1, hrz⟩
-      · refine ⟨_, Spec.Step.spliceFits s a b k ⟨hab, by omega⟩ (by omega), ?_, hnub⟩
+      · refine ⟨_, Spec.Step.spliceFits s a b k cs ⟨hab, by omega⟩ (by omega), ?_, hnub⟩
         rw [hfin] at hinv' ⊢
-        refine Rel.mk' (bg := bg) hinv' (by intro u hu; show (W0.vecs.set v _)[u]? = _; rw [List.getElem?_set_ne (Ne.symm hu)]; exact hW0 u hu)
-          (by simpa using hf0) { d3 with len := a + k + (d.len - b) } (by simp [hlt0]) hlive3
-          (by show d3.ty = ty; rw [hty3]; exact hty) habs3 (by simp [W0, World.bumpN, hn])
+        refine Rel.mk' (bg := bg) hinv' (by intro u hu; show (W1.vecs.set v _)[u]? = _; rw [List.getElem?_set_ne (Ne.symm hu)]; exact hW1 u hu)
+          (by simpa using hf1) { d3 with len := a + k + (d.len - b) } (by simp [hlt0]) hlive3
+          (by show d3.ty = ty; rw [hty3]; exact hty) habs3 (by simp [W1, W0, World.bumpN, hn])
           (by show d3.cap = s.cap; rw [hcap3, hc1]; exact hcp) (by show VecSt.resizable d3.bk = _; rw [hbk3, hbk1]; exact hbk)
-      · refine ⟨_, Spec.Step.spliceGrow s a b k d1.cap ⟨hab, by omega⟩ (by omega) ?_ (by omega), ?_, hnub⟩
+      · refine ⟨_, Spec.Step.spliceGrow s a b k d1.cap cs ⟨hab, by omega⟩ (by omega) ?_ (by omega), ?_, hnub⟩
         · have : VecSt.resizable d.bk = true := hrz
           rw [this] at hbk; cases hfx : s.fixed <;> simp [hfx] at hbk ⊢
         · rw [hfin] at hinv' ⊢
-          refine Rel.mk' (bg := bg) hinv' (by intro u hu; show (W0.vecs.set v _)[u]? = _; rw [List.getElem?_set_ne (Ne.symm hu)]; exact hW0 u hu)
-            (by simpa using hf0) { d3 with len := a + k + (d.len - b) } (by simp [hlt0]) hlive3
-            (by show d3.ty = ty; rw [hty3]; exact hty) habs3 (by simp [W0, World.bumpN, hn])
+          refine Rel.mk' (bg := bg) hinv' (by intro u hu; show (W1.vecs.set v _)[u]? = _; rw [List.getElem?_set_ne (Ne.symm hu)]; exact hW1 u hu)
+            (by simpa using hf1) { d3 with len := a + k + (d.len - b) } (by simp [hlt0]) hlive3
+            (by show d3.ty = ty; rw [hty3]; exact hty) habs3 (by simp [W1, W0, World.bumpN, hn])
             (by show d3.cap = d1.cap; exact hcap3) (by show VecSt.resizable d3.bk = _; rw [hbk3, hbk1]; exact hbk)
     | panic m =>
-      have hres' : d0.reserve (it.start + ids.length + (it.origLen - it.end0) - it.start) = .panic m := by
-        simpa [it, hidl] using hres
-      obtain ⟨m', hex⟩ := spliceDrop_refused cfg W0 it d0 ty ids m hv0 hl hf0 hres'
+      have hres' : d0.reserve (it2.start + ids.length + (it2.origLen - it2.end0) - it2.start) = .panic m := by
+        simpa [it2, hidl] using hres
+      obtain ⟨m', hex⟩ := spliceDrop_refused cfg W1 it2 d0 ty ids m hv1 hl hf1 hres'
       rw [hidl] at hex
-      have hfin : step cfg ((VOp.splice a b k).toOp v ty) w =
-          (logDrops cfg.hasDrop ids { W0 with fault := none }, .panic m') := by
+      have hfin : step cfg ((VOp.splice a b k cs).toOp v ty) w =
+          (logDrops cfg.hasDrop ids { W1 with fault := none }, .panic m') := by
         rw [hstep0]
         simp only [WM.bind_apply, hex]
       have hov : d.cap < a + (a + k + (d.len - b) - a) ∨ USIZE_MAX < a + (a + k + (d.len - b) - a) :=
         reserve_panic_cases d0 _ m hres
-      refine ⟨_, Spec.Step.spliceRefused s a b k ⟨hab, by omega⟩ (by omega), ?_, hnub⟩
+      refine ⟨_, Spec.Step.spliceRefused s a b k cs ⟨hab, by omega⟩ (by omega), ?_, hnub⟩
       rw [hfin] at hinv' ⊢
-      refine Rel.mk' (bg := bg) hinv' (by intro u hu; simpa using hW0 u hu) (by simp) d0 (by simpa using hv0) hl hty ?_ (by simp [W0, World.bumpN, hn]) hcp hbk
+      refine Rel.mk' (bg := bg) hinv' (by intro u hu; simpa using hW1 u hu) (by simp) d0 (by simpa using hv1) hl hty ?_ (by simp [W1, W0, World.bumpN, hn]) hcp hbk
       show d.cells.take a = (s.items.take a).map Cell.val
       have hd : d.cells.take d.len = s.items.map Cell.val := habs
       rw [List.map_take, ← hd, List.take_take]
@@ -1116,7 +1177,7 @@ theorem step_splice (cfg : Cfg) (v ty a b k : Nat) (w : World) (s : Spec) (h : R
       rw [hres] at this; exact this.elim
   · -- invalid range: the replacement values are destroyed, nothing else happens
     have hdr := dropRepl_wrappers_nofault cfg ty (List.range' w.created k) { (w.bumpN k) with fault := none } rfl
-    have hex : ∃ m, step cfg ((VOp.splice a b k).toOp v ty) w =
+    have hex : ∃ m, step cfg ((VOp.splice a b k cs).toOp v ty) w =
         (logDrops cfg.hasDrop ids { (w.bumpN k) with fault := none }, .panic m) := by
       refine ⟨if a ≤ b then "assertion failed: end <= len" else "assertion failed: start <= end", ?_⟩
       simp only [VOp.toOp, step, splice, WM.bind_apply, hmk, getVec_ok (w.bumpN k) v d hvm hl, intoRange, rangeStart,
@@ -1128,7 +1189,7 @@ theorem step_splice (cfg : Cfg) (v ty a b k : Nat) (w : World) (s : Spec) (h : R
       · simp only [hab, WM.lift, WM.onUnwind, hdr, if_false, Bind.bind, Res.bind]
         rfl
     obtain ⟨m, hex⟩ := hex
-    refine ⟨_, Spec.Step.spliceOut s a b k (by omega), ?_, hnub⟩
+    refine ⟨_, Spec.Step.spliceOut s a b k cs (by omega), ?_, hnub⟩
     rw [hex] at hinv' ⊢
     exact Rel.mk' (bg := bg) hinv' (by frame_tac hbg) (by simp) d (by simpa using hvm) hl hty habs (by simp [World.bumpN, hn]) hcp hbk
 
@@ -1145,7 +1206,7 @@ theorem step_refines (cfg : Cfg) (v ty : Nat) (w : World) (s : Spec) (h : Rel bg
   | remove i => exact step_remove cfg v ty i w s h
   | swapRemove i => exact step_swapRemove cfg v ty i w s h
   | clear => exact step_clear cfg v ty w s h
-  | drain a b => exact step_drain cfg v ty a b w s h
+  | drain a b cs => exact step_drain cfg v ty a b cs w s h
   | tpop => exact step_tpop cfg v ty w s h
   | tremove i => exact step_tremove cfg v ty i w s h
   | tswapRemove i => exact step_tswapRemove cfg v ty i w s h
@@ -1155,7 +1216,7 @@ theorem step_refines (cfg : Cfg) (v ty : Nat) (w : World) (s : Spec) (h : Rel bg
   | shrinkTo n => exact step_shrinkTo cfg v ty n w s h hop
   | swap i j => exact step_swap cfg v ty i j w s h
   | assign i => exact step_assign cfg v ty i w s h
-  | splice a b k => exact step_splice cfg v ty a b k w s h
+  | splice a b k cs => exact step_splice cfg v ty a b k cs w s h
 
 /-- no operation changes the kind of storage -/
 theorem Spec.Step.fixed_eq {s s' : Spec} {op : VOp} (h : Spec.Step s op s') : s'.fixed = s.fixed := by
@@ -1288,7 +1349,7 @@ theorem Spec.Step.cap_fixed {s s' : Spec} {op : VOp} (h : Spec.Step s op s') (hf
     | room _ => rfl
     | grow c _ hfix _ => exact (hne hfix).elim
   case reserveGrow c _ hfix _ => exact (hne hfix).elim
-  case spliceGrow _ _ _ _ _ _ hfix _ => exact (hne hfix).elim
+  case spliceGrow _ _ _ _ _ _ _ hfix _ => exact (hne hfix).elim
   case reserveExactGrow => exact (hne hop).elim
   case shrinkToFit => exact (hne hop).elim
   case shrinkTo => exact (hne hop).elim
@@ -1422,7 +1483,7 @@ def sampleVec : VecSt :=
     cells := [.val 10, .val 11, .val 12], len := 3, gen := 0, live := true }
 def sampleWorld : World := { vecs := [sampleVec], created := 13 }
 def sampleOps : List VOp := [.push, .insert 1, .remove 0, .swapRemove 0, .pop, .tpush, .remove 9, .reserve 3, .swap 0 2]
-def sampleOps2 : List VOp := [.splice 1 2 2, .assign 0]
+def sampleOps2 : List VOp := [.splice 1 2 2 [.back, .front], .assign 0]
 
 example : (runOps { size := 8, align := 8, hasDrop := true } 0 0 sampleWorld sampleOps).vis 0 =
     [.val 15, .val 11, .val 13] := by decide
